@@ -353,10 +353,13 @@ package proj
 
 //@ -- UTM zone parameters as in lib/projections/utm.js (TMerc itself is a trusted constructor here;
 //@ -- its closures are under contract above)
+// TMerc (called by UTM): verified, no longer trusted - the constructor itself writes nothing,
+// fails on nothing and returns without error; the two closures it returns are TMerc$1 / TMerc$2.
 //@ func TMerc
-//@   trusted projection constructor: computes the captured series constants and returns the two closures verified as TMerc$1 / TMerc$2
-//@   opt writes=alloc
+//@   prop C09
+//@   mode real
 //@   requires [sr] this != nil
+//@   ensures [no_error] err == nil
 //@   modifies nothing
 
 //@ func UTM
